@@ -2,6 +2,9 @@ package main
 
 import (
 	"bufio"
+	"bytes"
+	"encoding/json"
+	"fmt"
 	"sync"
 	"os"
 	"os/exec"
@@ -100,4 +103,151 @@ func runBatch(suiteName string, ses [][]string, emit func(string)) {
 		}
 		i = j
 	}
+}
+
+// rounds: monitor rounds that run in their own process (a wedged or crashed endpoint cannot pollute the next)
+var rounds = map[string]func(seed int64, i int) roundResult{}
+
+func runRounds(name string, seed int64, n, par int) []roundResult {
+	exe, _ := os.Executable()
+	res := make([]roundResult, n)
+	sem := make(chan struct{}, par)
+	var wg sync.WaitGroup
+	for i := 0; i < n; i++ {
+		wg.Add(1)
+		go func(i int) {
+			defer wg.Done()
+			sem <- struct{}{}
+			defer func() { <-sem }()
+			cmd := exec.Command(exe, "round", name, fmt.Sprint(seed), fmt.Sprint(i))
+			cmd.Env = append(os.Environ(), "GOTRACEBACK=all")
+			var out, errb bytes.Buffer
+			cmd.Stdout, cmd.Stderr = &out, &errb
+			done := make(chan error, 1)
+			_ = cmd.Start()
+			go func() { done <- cmd.Wait() }()
+			select {
+			case <-done:
+			case <-time.After(90 * time.Second):
+				_ = cmd.Process.Kill()
+				<-done
+			}
+			var r roundResult
+			if err := json.Unmarshal(out.Bytes(), &r); err != nil {
+				// the round process died: a panic in a library goroutine
+				st := errb.String()
+				site := "?"
+				for _, l := range strings.Split(st, "\n") {
+					if strings.Contains(l, "github.com/lorenzodonini/ocpp-go/") && !strings.Contains(l, "_test") && strings.Contains(l, "(") {
+						site = strings.TrimSpace(l)
+						if j := strings.Index(site, "(0x"); j > 0 {
+							site = site[:j]
+						}
+						if j := strings.Index(site, "({"); j > 0 {
+							site = site[:j]
+						}
+						site = site[strings.LastIndex(site, "/")+1:]
+						break
+					}
+				}
+				if len(st) > 3000 {
+					st = st[:3000]
+				}
+				site = panicSite(st, site)
+				if site == "HARNESS" {
+					fmt.Fprintln(os.Stderr, "HARNESS-ERROR", name, i, strings.SplitN(st, "\n", 2)[0])
+					res[i] = r
+					return
+				}
+				r.Violations = append(r.Violations, Violation{Property: "C06", Sig: "panic:" + site, What: fmt.Sprintf("%s round %d (seed %d): the process died with a panic in a library goroutine at %s", name, i, seed, site), Replay: st})
+			}
+			res[i] = r
+		}(i)
+	}
+	wg.Wait()
+	return res
+}
+
+func runSched(runs []string, par int) []schedResult {
+	exe, _ := os.Executable()
+	res := make([]schedResult, len(runs))
+	sem := make(chan struct{}, par)
+	var wg sync.WaitGroup
+	for i := range runs {
+		wg.Add(1)
+		go func(i int) {
+			defer wg.Done()
+			sem <- struct{}{}
+			defer func() { <-sem }()
+			cmd := exec.Command(exe, "sched", runs[i])
+			cmd.Env = append(os.Environ(), "GOTRACEBACK=all")
+			var out, errb bytes.Buffer
+			cmd.Stdout, cmd.Stderr = &out, &errb
+			done := make(chan error, 1)
+			_ = cmd.Start()
+			go func() { done <- cmd.Wait() }()
+			select {
+			case <-done:
+			case <-time.After(60 * time.Second):
+				_ = cmd.Process.Kill()
+				<-done
+			}
+			var r schedResult
+			if err := json.Unmarshal(out.Bytes(), &r); err != nil {
+				st := errb.String()
+				site := "?"
+				for _, l := range strings.Split(st, "\n") {
+					if strings.Contains(l, "github.com/lorenzodonini/ocpp-go/") && strings.Contains(l, "(") {
+						site = strings.TrimSpace(l)
+						if j := strings.Index(site, "(0x"); j > 0 {
+							site = site[:j]
+						}
+						if j := strings.Index(site, "({"); j > 0 {
+							site = site[:j]
+						}
+						site = site[strings.LastIndex(site, "/")+1:]
+						break
+					}
+				}
+				if len(st) > 2500 {
+					st = st[:2500]
+				}
+				site = panicSite(st, site)
+				r.Events = 1
+				if site == "HARNESS" {
+					fmt.Fprintln(os.Stderr, "HARNESS-ERROR", runs[i], strings.SplitN(st, "\n", 2)[0])
+					res[i] = r
+					return
+				}
+				r.Violations = append(r.Violations, Violation{Property: "C06", Sig: "panic:" + site, What: "the process died with a panic in a library goroutine at " + site, Replay: st})
+			}
+			res[i] = r
+		}(i)
+	}
+	wg.Wait()
+	return res
+}
+
+// panicSite extracts "<endpoint>:<function>" of the first library frame of a crash dump
+func panicSite(st, fallback string) string {
+	lines := strings.Split(st, "\n")
+	for _, l := range lines {
+		if strings.Contains(l, "github.com/lorenzodonini/ocpp-go/") && strings.Contains(l, "(") && !strings.HasPrefix(strings.TrimSpace(l), "/") {
+			fn := strings.TrimSpace(l)
+			for _, cut := range []string{"(0x", "({", "(...)"} {
+				if j := strings.Index(fn, cut); j > 0 {
+					fn = fn[:j]
+				}
+			}
+			fn = fn[strings.LastIndex(fn, "/")+1:]
+			fn = strings.TrimPrefix(fn, "ocppj.")
+			fn = strings.NewReplacer("(*DefaultClientDispatcher).", "client:", "(*DefaultServerDispatcher).", "server:", "(*Client).", "client:", "(*Server).", "server:").Replace(fn)
+			if j := strings.Index(fn, ".func"); j > 0 {
+				fn = fn[:j]
+			}
+			return fn
+		}
+	}
+	// no library frame at all: the harness itself failed; not a finding about the library
+	return "HARNESS"
 }
